@@ -2175,12 +2175,13 @@ def _r11(name):
 
 for _p, _names in {
     "C02": ["rule_py_lines_split_at_newline_only", "rule_py_ndjson_writer_header"],
-    "C03": ["rule_py_lines_split_at_newline_only", "rule_py_decodes_are_strict"],
+    "C03": ["rule_py_lines_split_at_newline_only", "rule_py_decodes_are_strict", "rule_py_serializers_keep_no_per_value_state"],
     "C15": ["rule_py_decodes_are_strict", "rule_py_ndjson_writer_header"],
     "C04": ["rule_py_ndjson_writer_header"],
-    "C01": ["rule_py_decodes_are_strict"],
+    "C01": ["rule_py_decodes_are_strict", "rule_py_serializers_keep_no_per_value_state"],
     "C16": ["rule_py_decodes_are_strict", "rule_py_available_bytes_come_from_the_stream"],
-    "C17": ["rule_py_available_bytes_come_from_the_stream"],
+    "C17": ["rule_py_available_bytes_come_from_the_stream", "rule_py_serializers_keep_no_per_value_state"],
+    "C14": ["rule_py_serializers_keep_no_per_value_state"],
 }.items():
     RULES.setdefault(_p, []).extend(_r11(n) for n in _names)
 
